@@ -538,7 +538,14 @@ func c06R5(c *Ctx, r *Report, rule string) {
 	bad := 0
 	for _, fn := range sortedFuncs(mreach) {
 		name := fname(fn)
-		if strings.HasPrefix(name, "layer4.(*Connection)") || strings.HasPrefix(name, "layer4.(MatcherSet)") {
+		exempt := false
+		for _, h := range c.homeChain(fn) { // the bracket itself: MatcherSet.Match and helpers only it calls (C01.R1 decides the bracket)
+			hn := fname(h)
+			if strings.HasPrefix(hn, "layer4.(*Connection)") || strings.HasPrefix(hn, "layer4.(MatcherSet)") {
+				exempt = true
+			}
+		}
+		if exempt {
 			continue
 		}
 		for _, b := range fn.Blocks {
